@@ -25,6 +25,9 @@ def check(ctx):
     n2 = streams.check_iterator_is_eager(ctx, rep)
     rep.floor("eager-vs-lazy structure obligations", n2, 3)
     from rules import escapes
+    ne1 = escapes.check_str(ctx, rep)
+    ne2 = escapes.check_uri(ctx, rep)
+    rep.floor("Str / Uri escape transducer obligations", ne1 + ne2, 13)
     escapes.check_cell_presence_only(ctx, rep)
     escapes.check_element_encoding(ctx, rep)
     nn = escapes.check_nesting_flag(ctx, rep)
